@@ -30,7 +30,7 @@ class Worker:
             stdout=subprocess.PIPE,
             stderr=self.errlog,
             env=env.child_env(hashseed),
-            cwd=env.scratch_root(),
+            cwd=env._base_scratch(),
             text=True,
             bufsize=1,
         )
@@ -88,6 +88,7 @@ class Worker:
             self.proc.wait(10)
         except Exception:
             pass
+        env.remove_worker_scratch(self.engine, self.proc.pid)
         self.close_log()
 
     def close_log(self):
@@ -104,6 +105,7 @@ class Worker:
             self.proc.wait(20)
         except Exception:
             self.kill()
+        env.remove_worker_scratch(self.engine, self.proc.pid)
         self.close_log()
 
 
